@@ -1,5 +1,7 @@
 \* C06 index configuration: archives of 0..3 members, names {1,2} (duplicates), sizes 0/1/2
-\* (even, odd, empty); only the index walk; IndexExact checked and the INDEX cases emitted
+\* (even, odd, empty); only the index walk; IndexExact checked and the INDEX cases emitted,
+\* once per opening form (IOPEN lines): by name, or through a shared file object with every relation
+\* between the stream and the descriptor underneath it (FdKinds); TrustFd = TRUE is the negative control
 CONSTANTS
   Bytes = {120}
   Names = {1, 2}
@@ -17,6 +19,8 @@ CONSTANTS
   PadOdd = TRUE
   SeekFirst = TRUE
   IterYieldsAll = TRUE
+  FdKinds = {"none", "same", "less", "more"}
+  TrustFd = FALSE
 SPECIFICATION Spec
 INVARIANT TypeOK
 INVARIANT IndexExact
